@@ -106,12 +106,12 @@ fn c19_from_gimli() {
     }
 }
 
-fn any_dwarf_map() -> DwarfRegisterMap {
+pub(crate) fn any_dwarf_map() -> DwarfRegisterMap {
     let buf: [Option<u64>; 0x80] = kani::any();
     DwarfRegisterMap(SmallVec::from_buf(buf))
 }
 
-fn val(dm: &DwarfRegisterMap, i: u16) -> Option<u64> {
+pub(crate) fn val(dm: &DwarfRegisterMap, i: u16) -> Option<u64> {
     match dm.value(gimli::Register(i)) {
         Ok(v) => Some(v),
         Err(e) => { core::mem::forget(e); None }
